@@ -670,7 +670,8 @@ public:
 			return false;
 		for (const_reference ref : left)
 		{
-			if (right.find(ref) == right.end())
+			const_iterator iter = right.find(ref);
+			if (iter == right.end() || !(*iter == ref))
 				return false;
 		}
 		return true;
